@@ -1,5 +1,350 @@
-//! R9 (combinator inlining with beta reduction) and R10 (lambda lifting).
-use crate::rewrite::Ctx;
-use syn::Block;
+//! R9: a combinator applied to a closure literal is replaced by the combinator's own body (taken from the real
+//! `flussab/src/parser.rs` on every run when it is a single `match self { .. }`, otherwise from
+//! contracts/templates.json) with the closure beta-reduced. R10: a closure with `?`/`return` is lambda-lifted to a
+//! named function declared in the contract file; the call replaces the closure invocation.
 
-pub fn rewrite_closures(_block: &mut Block, _cx: &mut Ctx) {}
+use crate::matcher::norm;
+use crate::rewrite::Ctx;
+use proc_macro2::{Span, TokenStream};
+use quote::{quote, ToTokens};
+use serde_json::{json, Value};
+use std::collections::HashMap;
+use syn::visit::Visit;
+use syn::visit_mut::{self, VisitMut};
+use syn::{Block, Expr, Stmt};
+
+/// Templates: key = "<Kind>::<method>" (Kind in Parsed, Result, Option) -> (self ident, closure param ident, body expr)
+pub struct Template {
+    pub self_name: String,
+    pub fn_param: Option<String>,
+    pub body: Expr,
+    pub source: String,
+}
+
+pub fn derive_templates(repo: &str, plan: &Value) -> HashMap<String, Template> {
+    let mut out = HashMap::new();
+    // 1. from the real parser.rs: impl<T, E> Parsed<T, E> methods whose body is exactly one `match self { .. }`
+    let path = format!("{}/flussab/src/parser.rs", repo);
+    if let Ok(src) = std::fs::read_to_string(&path) {
+        if let Ok(file) = syn::parse_file(&src) {
+            for it in &file.items {
+                if let syn::Item::Impl(im) = it {
+                    if im.trait_.is_some() {
+                        continue;
+                    }
+                    let ty = norm(im.self_ty.to_token_stream());
+                    if !ty.starts_with("Parsed<") {
+                        continue;
+                    }
+                    for ii in &im.items {
+                        if let syn::ImplItem::Fn(m) = ii {
+                            let mut fn_param = None;
+                            let mut n_typed = 0;
+                            for a in m.sig.inputs.iter() {
+                                if let syn::FnArg::Typed(pt) = a {
+                                    n_typed += 1;
+                                    if let syn::Pat::Ident(pi) = &*pt.pat {
+                                        fn_param = Some(pi.ident.to_string());
+                                    }
+                                }
+                            }
+                            if n_typed > 1 {
+                                continue;
+                            }
+                            if m.block.stmts.len() == 1 {
+                                if let Stmt::Expr(Expr::Match(mm), None) = &m.block.stmts[0] {
+                                    if norm(mm.expr.to_token_stream()) == "self" {
+                                        out.insert(
+                                            format!("Parsed::{}", m.sig.ident),
+                                            Template { self_name: "self".into(), fn_param, body: Expr::Match(mm.clone()), source: format!("flussab/src/parser.rs:{}", m.sig.ident.span().start().line) },
+                                        );
+                                    }
+                                }
+                            }
+                        }
+                    }
+                }
+            }
+        }
+    }
+    // 2. hand-written templates (std semantics of Result/Option; and_also/and_do which are not single matches)
+    if let Some(m) = plan["templates"].as_object() {
+        for (k, v) in m {
+            if out.contains_key(k) {
+                continue;
+            }
+            if let Ok(e) = syn::parse_str::<Expr>(v.as_str().unwrap_or("")) {
+                out.insert(k.clone(), Template { self_name: "__recv".into(), fn_param: Some("__call".into()), body: e, source: "contracts/templates.json".into() });
+            }
+        }
+    }
+    out
+}
+
+const COMBINATORS: &[&str] = &[
+    "or_give_up", "or_parse", "or_always_parse", "and_then", "and_also", "and_do", "map", "map_err", "unwrap_or_else", "ok_or_else", "map_or", "map_or_else", "or_else",
+];
+
+struct HasEarlyExit {
+    found: bool,
+}
+impl<'ast> Visit<'ast> for HasEarlyExit {
+    fn visit_expr_try(&mut self, _: &'ast syn::ExprTry) {
+        self.found = true;
+    }
+    fn visit_expr_return(&mut self, _: &'ast syn::ExprReturn) {
+        self.found = true;
+    }
+    fn visit_expr_closure(&mut self, _: &'ast syn::ExprClosure) {
+        // nested closures have their own scope
+    }
+}
+
+fn closure_ordinal(c: &syn::ExprClosure) -> Option<usize> {
+    // body is `{ __vp_closure!(n); body }`
+    if let Expr::Block(b) = &*c.body {
+        if let Some(Stmt::Macro(sm)) = b.block.stmts.first() {
+            if sm.mac.path.is_ident("__vp_closure") {
+                return sm.mac.tokens.to_string().trim().parse().ok();
+            }
+        }
+    }
+    None
+}
+
+fn closure_inner_body(c: &syn::ExprClosure) -> Expr {
+    if let Expr::Block(b) = &*c.body {
+        if let Some(Stmt::Macro(sm)) = b.block.stmts.first() {
+            if sm.mac.path.is_ident("__vp_closure") {
+                let rest: Vec<Stmt> = b.block.stmts[1..].to_vec();
+                // `{ marker; expr }` -> expr if single tail expression
+                if rest.len() == 1 {
+                    if let Stmt::Expr(e, None) = &rest[0] {
+                        return e.clone();
+                    }
+                }
+                return syn::parse_quote!({ #(#rest)* });
+            }
+        }
+    }
+    (*c.body).clone()
+}
+
+/// `let <pat> = <arg>;` statements for beta reduction, handling `&mut x` / `&x` patterns (R5).
+fn bind(pat: &syn::Pat, arg: &Expr) -> Vec<Stmt> {
+    match pat {
+        syn::Pat::Wild(_) => vec![syn::parse_quote!(let _ = #arg;)],
+        syn::Pat::Reference(r) => {
+            // |&mut x| applied to `&mut e` -> let x = e;   otherwise let x = *arg;
+            let inner = &r.pat;
+            if let Expr::Reference(ar) = arg {
+                let e = &ar.expr;
+                vec![syn::parse_quote!(let #inner = #e;)]
+            } else {
+                vec![syn::parse_quote!(let #inner = *#arg;)]
+            }
+        }
+        syn::Pat::Type(pt) => bind(&pt.pat, arg),
+        p => vec![syn::parse_quote!(let #p = #arg;)],
+    }
+}
+
+struct CallReplacer<'x> {
+    fn_param: &'x str,
+    closure: &'x syn::ExprClosure,
+    lifted: Option<&'x Expr>, // if Some: callee path + leading captured args as a call expr `name(c1, c2)`
+    count: usize,
+}
+impl<'x> VisitMut for CallReplacer<'x> {
+    fn visit_expr_mut(&mut self, e: &mut Expr) {
+        visit_mut::visit_expr_mut(self, e);
+        if let Expr::Call(c) = e {
+            if let Expr::Path(p) = &*c.func {
+                if p.path.is_ident(self.fn_param) {
+                    self.count += 1;
+                    let args: Vec<Expr> = c.args.iter().cloned().collect();
+                    if let Some(l) = self.lifted {
+                        // name(captured..., args...)
+                        if let Expr::Call(lc) = l {
+                            let mut nc = lc.clone();
+                            for a in args {
+                                nc.args.push(a);
+                            }
+                            *e = Expr::Call(nc);
+                        }
+                    } else {
+                        let mut stmts: Vec<Stmt> = vec![];
+                        for (p, a) in self.closure.inputs.iter().zip(args.iter()) {
+                            stmts.extend(bind(p, a));
+                        }
+                        let body = closure_inner_body(self.closure);
+                        *e = if stmts.is_empty() { syn::parse_quote!({ #body }) } else { syn::parse_quote!({ #(#stmts)* #body }) };
+                    }
+                }
+            }
+        }
+    }
+}
+
+struct SelfReplacer<'x> {
+    name: &'x str,
+    with: &'x Expr,
+}
+impl<'x> VisitMut for SelfReplacer<'x> {
+    fn visit_expr_mut(&mut self, e: &mut Expr) {
+        if let Expr::Path(p) = e {
+            if p.path.is_ident(self.name) {
+                let w = self.with;
+                *e = syn::parse_quote!((#w));
+                return;
+            }
+        }
+        visit_mut::visit_expr_mut(self, e);
+    }
+}
+
+struct R9<'c, 'a, 't> {
+    cx: &'c mut Ctx<'a>,
+    templates: &'t HashMap<String, Template>,
+}
+
+impl<'c, 'a, 't> VisitMut for R9<'c, 'a, 't> {
+    fn visit_expr_mut(&mut self, e: &mut Expr) {
+        // inner first: receivers and closure bodies are rewritten before the outer call
+        visit_mut::visit_expr_mut(self, e);
+        let mc = match e {
+            Expr::MethodCall(mc) => mc,
+            _ => return,
+        };
+        let method = mc.method.to_string();
+        if !COMBINATORS.contains(&method.as_str()) || mc.args.len() != 1 {
+            return;
+        }
+        let closure = match &mc.args[0] {
+            Expr::Closure(c) => c.clone(),
+            _ => return,
+        };
+        let ord = match closure_ordinal(&closure) {
+            Some(n) => n,
+            None => return,
+        };
+        let kind = self.cx.opts["sites"].get(ord.to_string()).and_then(|v| v.as_str()).unwrap_or("Parsed").to_string();
+        if kind == "keep" {
+            return;
+        }
+        let key = format!("{}::{}", kind, method);
+        let t = match self.templates.get(&key) {
+            Some(t) => t,
+            None => {
+                self.cx.errors.push(format!("unsupported-construct: no inlining template for {} (closure #{})", key, ord));
+                return;
+            }
+        };
+        // lifted?
+        let lift = self.cx.opts["lifts"].get(ord.to_string()).cloned();
+        let mut early = HasEarlyExit { found: false };
+        early.visit_expr(&closure_inner_body(&closure));
+        let lifted_call: Option<Expr> = match &lift {
+            Some(l) if !l.is_null() => {
+                let name = syn::Ident::new(l["name"].as_str().unwrap(), Span::call_site());
+                let caps: Vec<Expr> = captured_args(l["params"].as_str().unwrap_or(""));
+                Some(syn::parse_quote!(#name(#(#caps),*)))
+            }
+            _ => None,
+        };
+        if early.found && lifted_call.is_none() {
+            self.cx.errors.push(format!("unsupported-construct: closure #{} contains `?`/`return` and has no `lift` declaration", ord));
+            return;
+        }
+        let fnp = t.fn_param.clone().unwrap_or_default();
+        let mut body = t.body.clone();
+        let mut cr = CallReplacer { fn_param: &fnp, closure: &closure, lifted: lifted_call.as_ref(), count: 0 };
+        cr.visit_expr_mut(&mut body);
+        let recv = (*mc.receiver).clone();
+        SelfReplacer { name: &t.self_name, with: &recv }.visit_expr_mut(&mut body);
+        let line = mc.method.span().start().line;
+        self.cx.log.push(json!({"rule": if lifted_call.is_some() { "R10" } else { "R9" }, "line": line,
+            "what": format!("{} with closure #{}: body of the combinator ({}) inlined, closure {}", key, ord, t.source,
+                if lifted_call.is_some() { "lifted to a named fn" } else { "beta-reduced" })}));
+        *e = body;
+    }
+}
+
+/// "input: &mut LineReader, lits: &mut Vec<L> ; lit: isize" -> captured argument expressions [input, lits]
+fn captured_args(params: &str) -> Vec<Expr> {
+    let caps = params.split(';').next().unwrap_or("");
+    let mut out = vec![];
+    for p in split_top_commas(caps) {
+        let p = p.trim();
+        if p.is_empty() {
+            continue;
+        }
+        let (name, ty) = match p.split_once(':') {
+            Some((n, t)) => (n.trim(), t.trim()),
+            None => (p, ""),
+        };
+        // `name = expr : type` lets the contract file say how the captured value is passed (e.g. `&mut self.reader`)
+        if let Some((n, ex)) = name.split_once('=') {
+            let _ = n;
+            if let Ok(e) = syn::parse_str::<Expr>(ex.trim()) {
+                out.push(e);
+                continue;
+            }
+        }
+        let name = name.trim_start_matches("mut ").trim();
+        let id = syn::Ident::new(name, Span::call_site());
+        let _ = ty;
+        out.push(syn::parse_quote!(#id));
+    }
+    out
+}
+
+pub fn split_top_commas(s: &str) -> Vec<String> {
+    let mut out = vec![];
+    let mut depth = 0i32;
+    let mut cur = String::new();
+    for ch in s.chars() {
+        match ch {
+            '<' | '(' | '[' => { depth += 1; cur.push(ch); }
+            '>' | ')' | ']' => { depth -= 1; cur.push(ch); }
+            ',' if depth == 0 => { out.push(std::mem::take(&mut cur)); }
+            _ => cur.push(ch),
+        }
+    }
+    if !cur.trim().is_empty() {
+        out.push(cur);
+    }
+    out
+}
+
+pub fn rewrite_closures(block: &mut Block, cx: &mut Ctx) {
+    let templates = derive_templates(cx.plan["repo"].as_str().unwrap_or("/repo"), cx.plan);
+    R9 { cx, templates: &templates }.visit_block_mut(block);
+}
+
+/// Finds closure #n in a numbered block (for R10 extraction of the lifted function's body).
+pub struct FindClosure {
+    pub want: usize,
+    pub found: Option<syn::ExprClosure>,
+}
+impl<'ast> Visit<'ast> for FindClosure {
+    fn visit_expr_closure(&mut self, c: &'ast syn::ExprClosure) {
+        if closure_ordinal(c) == Some(self.want) {
+            self.found = Some(c.clone());
+            return;
+        }
+        syn::visit::visit_expr_closure(self, c);
+    }
+}
+
+pub fn closure_body_block(c: &syn::ExprClosure) -> Block {
+    let e = closure_inner_body(c);
+    match e {
+        Expr::Block(b) if b.label.is_none() => b.block,
+        other => syn::parse_quote!({ #other }),
+    }
+}
+
+pub fn _unused(_: TokenStream) {
+    let _ = quote!();
+}
